@@ -124,7 +124,7 @@ func (g *G) fresh(p string) string {
 		// names over the whole alphabet (a digit keeps them clear of every keyword)
 		const az = "abcdefghijklmnopqrstuvwxyz"
 		p = string(az[g.R.Intn(26)])
-		if g.coin(50) {
+		if p == "v" || g.coin(50) { // v<n> are the top-level processes (numbered separately)
 			p += string(az[g.R.Intn(26)])
 		}
 	}
